@@ -1,0 +1,70 @@
+/*
+ * Copyright (C) 2024 Nuts community
+ *
+ * This program is free software: you can redistribute it and/or modify
+ * it under the terms of the GNU General Public License as published by
+ * the Free Software Foundation, either version 3 of the License, or
+ * (at your option) any later version.
+ *
+ * This program is distributed in the hope that it will be useful,
+ * but WITHOUT ANY WARRANTY; without even the implied warranty of
+ * MERCHANTABILITY or FITNESS FOR A PARTICULAR PURPOSE.  See the
+ * GNU General Public License for more details.
+ *
+ * You should have received a copy of the GNU General Public License
+ * along with this program.  If not, see <https://www.gnu.org/licenses/>.
+ *
+ */
+
+package dpop
+
+import (
+	"crypto"
+	"crypto/ecdsa"
+	"crypto/elliptic"
+	"crypto/rand"
+	"encoding/base64"
+	"encoding/json"
+	"fmt"
+	"testing"
+	"time"
+
+	"github.com/lestrrat-go/jwx/v2/jwk"
+	"github.com/stretchr/testify/assert"
+	"github.com/stretchr/testify/require"
+)
+
+// TestParse_algorithmMustFitCurve checks that a proof signed with an ECDSA algorithm that does not belong to the
+// curve of the embedded key (which the JWX library verifies without complaint) is refused.
+func TestParse_algorithmMustFitCurve(t *testing.T) {
+	privateKey, err := ecdsa.GenerateKey(elliptic.P384(), rand.Reader)
+	require.NoError(t, err)
+	publicJWK, err := jwk.FromRaw(privateKey.Public())
+	require.NoError(t, err)
+	publicJSON, err := json.Marshal(publicJWK)
+	require.NoError(t, err)
+
+	proof := func(alg string, hash crypto.Hash) string {
+		header := fmt.Sprintf(`{"alg":%q,"typ":"dpop+jwt","jwk":%s}`, alg, publicJSON)
+		claims := fmt.Sprintf(`{"htm":"GET","htu":"https://server.example.com/resource","jti":"1","iat":%d}`, time.Now().Unix())
+		input := base64.RawURLEncoding.EncodeToString([]byte(header)) + "." + base64.RawURLEncoding.EncodeToString([]byte(claims))
+		h := hash.New()
+		h.Write([]byte(input))
+		r, s, err := ecdsa.Sign(rand.Reader, privateKey, h.Sum(nil))
+		require.NoError(t, err)
+		signature := make([]byte, 96)
+		r.FillBytes(signature[:48])
+		s.FillBytes(signature[48:])
+		return input + "." + base64.RawURLEncoding.EncodeToString(signature)
+	}
+
+	t.Run("ok - ES384 with a P-384 key", func(t *testing.T) {
+		_, err := Parse(proof("ES384", crypto.SHA384))
+		assert.NoError(t, err)
+	})
+	t.Run("error - ES256 with a P-384 key", func(t *testing.T) {
+		_, err := Parse(proof("ES256", crypto.SHA256))
+		assert.ErrorIs(t, err, ErrInvalidDPoP)
+		assert.ErrorContains(t, err, "alg does not fit jwk")
+	})
+}
